@@ -322,7 +322,7 @@ func (db *ContractDB) LoadContractFile(file, pkgPath string) {
 			}
 			props, r := parseProps(rest)
 			switch kw {
-			case "requires", "ensures", "panics_if", "lemma":
+			case "requires", "ensures", "panics_if", "lemma", "conc_ensures":
 				e, err := ParseSpecExpr(r)
 				if err != nil {
 					errf("%v", err)
